@@ -41,6 +41,9 @@ REV = {
  'fix: Resize forgot a background shrink that was still pending': ('D7', [('C05','C05.F4'),('C12','C12.Z7')]),
  'fix: SETATTR of the size was accepted for directories': ('D35', [('C11','C11.V12'),('C04','C04.S7')]),
  'fix: Resize hands on the result of the in-transaction Shrink': ('D34', [('C05','C05.F1')]),
+ 'fix: formatting a disk without a data block': ('D43', [('C04','C04.S15'),('C01','C01.R16')]),
+ 'fix: READ bounds its count like WRITE': ('D42', [('C07','C07.U5'),('C19','C19.M6'),('C09','C09.A14')]),
+ 'fix: Shrink counts the bitmap blocks of the commit': ('D41', [('C01','C01.R13'),('C07','C07.U9'),('C05','C05.F18')]),
  'fix: a WRITE aborted for lack of space': ('D32', [('C09','C09.A2'),('C10','C10.W4')]),
 }
 def sh(*a, **k): return subprocess.run(a, capture_output=True, text=True, **k)
